@@ -36,14 +36,10 @@ TD_TYPES = ["DdtGaussian", "DdtLogNorm", "DdtDdGaussian", "DdtHist", "DdtHistKDE
 
 
 def make_cosmo(model, p):
-    from astropy.cosmology import FlatLambdaCDM, FlatwCDM, LambdaCDM, w0waCDM
-    if model == "FLCDM":
-        return FlatLambdaCDM(H0=p["h0"], Om0=p["om"])
-    if model == "FwCDM":
-        return FlatwCDM(H0=p["h0"], Om0=p["om"], w0=p["w"])
-    if model == "w0waCDM":
-        return w0waCDM(H0=p["h0"], Om0=p["om"], Ode0=1 - p["om"], w0=p["w0"], wa=p["wa"])
-    return LambdaCDM(H0=p["h0"], Om0=p["om"], Ode0=1 - p["om"] - p["ok"])
+    """the cosmology hierArc itself builds for the sampled parameters (CosmoParam.cosmo): H0 must enter
+    the distances handed to the lenses only as 1/H0"""
+    from hierarc.Sampling.ParamManager.cosmo_param import CosmoParam
+    return CosmoParam(cosmology=model).cosmo(dict(p))
 
 
 def gen_params(rng, model):
@@ -151,12 +147,20 @@ def sample_oracle(rng):
         lt = rng.choice(["IFUKinCov", "DsDdsGaussian"])
         data = lc.data_kwargs(rng, lt)
         lenses.append(dict(z_lens=rng.uniform(0.3, 0.7), z_source=rng.uniform(1.2, 2.2), likelihood_type=lt, **data))
-    kb = dict(kwargs_lower_cosmo={"h0": 10, "om": 0.05}, kwargs_upper_cosmo={"h0": 200, "om": 0.9})
-    cl = CosmoLikelihood(lenses, "FLCDM", {}, kb, interpolate_cosmo=rng.random() < 0.5, num_redshift_interp=200)
-    om = rng.uniform(0.2, 0.4)
-    vals = [float(np.squeeze(cl.likelihood([h0, om]))) for h0 in (rng.uniform(40, 60), rng.uniform(65, 75), rng.uniform(85, 120))]
-    if max(vals) - min(vals) > 1e-6 * max(1.0, abs(vals[0])):
-        return "a sample of distance-ratio lenses has an H0-dependent log-probability: %r" % (vals,)
+    model = rng.choice(["FLCDM", "FwCDM", "w0waCDM", "oLCDM"])
+    kb = dict(kwargs_lower_cosmo={"h0": 10, "om": 0.05, "w": -3, "w0": -3, "wa": -3, "ok": -0.5},
+              kwargs_upper_cosmo={"h0": 200, "om": 0.9, "w": 0, "w0": 0, "wa": 3, "ok": 0.5})
+    interp = rng.random() < 0.5
+    cl = CosmoLikelihood(lenses, model, {}, kb, interpolate_cosmo=interp, num_redshift_interp=400)
+    p = gen_params(rng, model)
+    names = cl.param.param_list()
+    vals = []
+    for h0 in (rng.uniform(35, 60), rng.uniform(65, 75), rng.uniform(85, 140)):
+        x = [h0 if n == "h0" else p[n] for n in names]
+        vals.append(float(np.squeeze(cl.likelihood(x))))
+    tol = (2e-4 if interp else 1e-7) * max(1.0, abs(vals[0]))
+    if max(vals) - min(vals) > tol:
+        return "a %s sample of distance-ratio lenses has an H0-dependent log-probability: %r" % (model, vals)
     return None
 
 
@@ -202,7 +206,7 @@ def run(ctx, res):
                         "ds1": f2b(1.0), "dds1": f2b(1.0), "ds2": f2b(1.0), "dds2": f2b(1.0)}
                 lines.append(line)
                 meta.append((case["ltype"], v, scaled))
-    for _ in range(ctx.n(4, 40)):
+    for _ in range(ctx.n(10, 80)):
         try:
             f = sample_oracle(rng)
         except Exception as e:  # noqa
